@@ -30,6 +30,7 @@ def c3(ctx):
     serial.smchart_writer_fields(ctx)
     serial.sm_chart_reader(ctx)
     serial.serializer_raw_text(ctx)
+    serial.str_is_serialize(ctx)
     serial.layout(ctx)
 
 
